@@ -129,7 +129,7 @@ def chainChild (st : BSt) (a : Nat) : BSt × Nat :=
       | some fc =>
         match fc.up with
         | none => (st, a)        -- not reached: the last child was made by `_glom`
-        | some _ => ((st.modFrame c (fun f => { f with noPyframe := true })), c)
+        | some _ => ((st.modFrame c (fun f => { f with noPyframe := true })).modList fc.childErrors (fun _ => []), c)
 
 /-- `NO_PYFRAME in dict(scope)`: some map of the chain has the marker -/
 def visibleNoPyframe : Nat → BSt → Nat → Bool
